@@ -278,6 +278,7 @@ pub fn run(args: &Args) -> i32 {
         let mut traces: BTreeSet<String> = BTreeSet::new();
         let mut signal_points: BTreeSet<usize> = BTreeSet::new();
         let mut found: Vec<(String, String, Vec<usize>, Vec<String>)> = vec![];
+        crate::evidence::watchdog::set_context(json!({"engine":"schedmc-c07","scenario":scn.name}));
         let stats = explore(
             bound,
             if thorough { 6_000_000 } else { 300_000 },
